@@ -19,6 +19,8 @@ import (
 
 	sdk "github.com/cosmos/cosmos-sdk/types"
 	"github.com/cosmos/cosmos-sdk/types/module"
+	filetreetypes "github.com/jackalLabs/canine-chain/v4/x/filetree/types"
+	notiftypes "github.com/jackalLabs/canine-chain/v4/x/notifications/types"
 	oracletypes "github.com/jackalLabs/canine-chain/v4/x/oracle/types"
 	rnstypes "github.com/jackalLabs/canine-chain/v4/x/rns/types"
 	storagetypes "github.com/jackalLabs/canine-chain/v4/x/storage/types"
@@ -212,6 +214,10 @@ func persistedModuleTwin(r *RunCtx, moduleName, sig string) error {
 		r.Finding(sig+"/persisted/records-unreachable", "after loading the "+moduleName+" store as the earlier release wrote it (and running the migrations), the module no longer sees what that release exported from it; first difference at "+p, map[string]interface{}{"trace": trace, "at": p})
 		return nil
 	}
+	if m := keyedLookups(e, moduleName, now); m != "" {
+		r.Finding(sig+"/persisted/records-unreachable", "after loading the "+moduleName+" store as the earlier release wrote it (and running the migrations), the module lists a record that its own keyed lookup does not find: "+m, map[string]interface{}{"trace": trace, "at": m})
+		return nil
+	}
 	r.Count("persisted-module:"+moduleName, true)
 	r.Hist("persisted-state", moduleName+": everything the earlier release exported is still seen")
 	return nil
@@ -292,6 +298,11 @@ func restartModuleTwin(r *RunCtx, moduleName, sig string) error {
 			nxt.Close()
 			return nil
 		}
+		if m := keyedLookups(nxt, moduleName, now); m != "" {
+			r.Finding(sig+"/restart/records-unreachable", "after a restart from the exported genesis the "+moduleName+" module lists a record that its own keyed lookup does not find: "+m, map[string]interface{}{"trace": append(trace, step), "at": m})
+			nxt.Close()
+			return nil
+		}
 		nxt.Close()
 		var oldV, nowV interface{}
 		if json.Unmarshal(old, &oldV) != nil || json.Unmarshal(now, &nowV) != nil {
@@ -318,4 +329,95 @@ func restartModuleTwin(r *RunCtx, moduleName, sig string) error {
 	}
 	r.Hist("restart-twin", moduleName+": the restarted chain holds what the old one exported")
 	return nil
+}
+
+// keyedLookups: every record of an exported genesis is also found by the keyed lookup the handlers and queries use
+// (an export walks the whole prefix and sees a record wherever it sits; a handler builds the key from the record's
+// fields and sees it only there).  Returns a description of the first record that is listed but not found under its key.
+func keyedLookups(e *Env, moduleName string, exported []byte) string {
+	cdc := e.App.AppCodec()
+	miss := ""
+	note := func(kind, what string) {
+		if miss == "" {
+			miss = kind + " " + what
+		}
+	}
+	pn := Guard(func() {
+		switch moduleName {
+		case "rns":
+			var gs rnstypes.GenesisState
+			cdc.MustUnmarshalJSON(exported, &gs)
+			for _, n := range gs.NamesList {
+				if v, ok := e.App.RnsKeeper.GetNames(e.Ctx, n.Name, n.Tld); !ok || v.Value != n.Value || v.Expires != n.Expires {
+					note("name", n.Name+"."+n.Tld)
+				}
+			}
+			for _, b := range gs.BidsList {
+				if v, ok := e.App.RnsKeeper.GetBids(e.Ctx, b.Index); !ok || v.Price != b.Price {
+					note("bid", b.Index)
+				}
+			}
+			for _, f := range gs.ForSaleList {
+				if v, ok := e.App.RnsKeeper.GetForsale(e.Ctx, f.Name); !ok || v.Owner != f.Owner {
+					note("listing", f.Name)
+				}
+			}
+		case "storage":
+			var gs storagetypes.GenesisState
+			cdc.MustUnmarshalJSON(exported, &gs)
+			for _, f := range gs.FileList {
+				if v, ok := e.App.StorageKeeper.GetFile(e.Ctx, f.Merkle, f.Owner, f.Start); !ok || v.FileSize != f.FileSize {
+					note("file", fmt.Sprintf("%x/%s/%d", f.Merkle, f.Owner, f.Start))
+				}
+			}
+			for _, p := range gs.ProvidersList {
+				if v, ok := e.App.StorageKeeper.GetProviders(e.Ctx, p.Address); !ok || v.Ip != p.Ip {
+					note("provider", p.Address)
+				}
+			}
+			for _, c := range gs.CollateralList {
+				if v, ok := e.App.StorageKeeper.GetCollateral(e.Ctx, c.Address); !ok || v.Amount != c.Amount {
+					note("collateral", c.Address)
+				}
+			}
+			for _, p := range gs.PaymentInfoList {
+				if v, ok := e.App.StorageKeeper.GetStoragePaymentInfo(e.Ctx, p.Address); !ok || v.SpaceUsed != p.SpaceUsed {
+					note("plan", p.Address)
+				}
+			}
+		case "filetree":
+			var gs filetreetypes.GenesisState
+			cdc.MustUnmarshalJSON(exported, &gs)
+			for _, f := range gs.FilesList {
+				if v, ok := e.App.FileTreeKeeper.GetFiles(e.Ctx, f.Address, f.Owner); !ok || v.Contents != f.Contents {
+					note("entry", f.Address+"/"+f.Owner)
+				}
+			}
+			for _, k := range gs.PubKeyList {
+				if v, ok := e.App.FileTreeKeeper.GetPubkey(e.Ctx, k.Address); !ok || v.Key != k.Key {
+					note("public key", k.Address)
+				}
+			}
+		case "notifications":
+			var gs notiftypes.GenesisState
+			cdc.MustUnmarshalJSON(exported, &gs)
+			for _, n := range gs.Notifications {
+				if v, ok := e.App.NotificationsKeeper.GetNotification(e.Ctx, n.To, n.From, n.Time); !ok || v.Contents != n.Contents {
+					note("notification", fmt.Sprintf("%s/%s/%d", n.To, n.From, n.Time))
+				}
+			}
+		case "oracle":
+			var gs oracletypes.GenesisState
+			cdc.MustUnmarshalJSON(exported, &gs)
+			for _, f := range gs.FeedList {
+				if v, ok := e.App.OracleKeeper.GetFeed(e.Ctx, f.Name); !ok || v.Owner != f.Owner {
+					note("feed", f.Name)
+				}
+			}
+		}
+	})
+	if pn != "" && miss == "" {
+		miss = "the keyed lookups panic: " + pn
+	}
+	return miss
 }
